@@ -74,7 +74,7 @@ AVOID = {
     'F43': False,   # (repaired in /repo) -j NAME with a StyleSheetPath directory that does not exist yet: FileNotFoundError
     'F44': False,   # (repaired in /repo) #LINK(ListItems/BulletPoints box page#anchor)() with blank link text: ValueError
     'F45': True,    # #LINK(custom memory map) from a secondary disassembly whose entries would not appear on that map
-    'F46': True,    # #R addr@id used inside disassembly id itself (e.g. #R32768@main in the main skool file): "Address not found"
+    'F46': False,   # (repaired in /repo) #R addr@id used inside disassembly id itself (e.g. #R32768@main in the main skool file): "Address not found"
 }
 
 for _k in os.environ.get('VERIF_C16_COVER', '').split(','):
